@@ -149,6 +149,14 @@ def run(ctx):
         sd, se = wire_shape(d, "dec"), wire_shape(e, "enc")
         r1.check(sd == se and len(sd.split()) >= 4, "codec:%s" % m, "%s: decode and encode agree on [%s]" % (m, sd), "%s is decoded as [%s] but encoded as [%s]: a rewritten message differs from the original in more than the name" % (m, sd, se))
         ctx.sample({"rule": "C08-R1", "message": m, "decode": sd, "encode": se})
+        # the counts of the protocol (parameter types, format codes, values) are 16 bits wide and unsigned - PostgreSQL takes up to 65535 parameters. A decoder
+        # that loops over a *signed* range bounded by such a count reads nothing from 32768 on, and the encoder writes the count back in front of no items
+        signed = sorted({d_["ty"] for d_ in d.locals if re.search(r"ops::range::Range(Inclusive)?<i(8|16|32|64)>", d_["ty"]) and not d_["ty"].startswith("&")})
+        counted = [c for c in d.calls("re:Buf::get_[iu]16$")]
+        if counted and any("Range" in d_["ty"] for d_ in d.locals):
+            r1.check(not signed, "counts-unsigned:%s" % m, "%s: the item loops of the decoder run over unsigned ranges" % m,
+                     "%s: the decoder loops over %s bounded by a 16-bit count of the wire: a message with more than 32767 items (a bulk INSERT with 40000 parameters) is decoded with none of them and re-encoded as a "
+                     "stub that announces the items and carries none" % (m, signed))
     br = ctx.body("pgcat::messages::Bind::rename", r1)
     if br:
         ps = br.calls("re:put_slice$")
